@@ -10,10 +10,13 @@
 //!
 //! Case (after the id):  kind  tz(hex)  secs  nanos  unit  n  modulate  maxdelay  arrivals
 //!   kind      next | trig
-//!   arrivals  `~` or comma list of `secs:nanos` (absolute instants; `trig` only)
+//!   arrivals  `~` or comma list of `secs:nanos[/secs2:nanos2][!]` (`trig` only): the clock value `trigger()`
+//!             reads for this record; optionally a different value for the second reading, inside
+//!             `TimeTrigger::new`, when it reschedules; `!` = the roller is made to fail on this record
 //! Observation, one field, space separated:
 //!   next:  facts  result
-//!   trig:  facts0 result0 (facts_i result_i)*  T  sched0  (fired:sched)*  segs
+//!   trig:  facts0 result0 (facts_i result_i)*  T  sched0  (fired:sched[:E])*  segs
+//!          (one facts/result pair per clock reading of every arrival; `:E` = `append` returned an error)
 //!   facts  = civ ; lnow ; offNow ; mk ; offTrunc ; offRes ; chg ; rciv ; tgt ; tbl   (what chrono told the code)
 //!     civ      y,month0,day,ordinal0,isoweek0,weekday(from Monday),hour,minute,second   of `current`
 //!     lnow     local naive seconds of `current` (floor), offNow its UTC offset
@@ -21,14 +24,15 @@
 //!              `Local.with_ymd_and_hms` and chrono's answer, kind s(ingle a) a(mbiguous a b) n(one)
 //!              x (the arithmetic before it does not fit the machine types)
 //!     offTrunc UTC offset at that instant when single; offRes, rciv offset and civil fields of
-//!              the result; chg = 1 when the offset changes anywhere between `current` and the result
+//!              the result; chg = H,T: T the first offset change of the zone within H seconds after `current` (`-` none)
 //!     tgt      month/year units: y,mo,d,h,mi,s,L — the first of the target month and its naive local
 //!              seconds (`NaiveDate::from_ymd_opt(..).and_hms_opt(0,0,0)`, `-` when chrono has no such
 //!              date); `-` for the other units or when the calendar arithmetic does not fit i64/i32
 //!     tbl      day/week/month/year units: `Local.from_local_datetime` at the target local time and, while
 //!              the answer is None (DST gap), at 15-minute steps after it (at most 200):
 //!              comma list of L:kind:a:b; `~` when there is no representable target
-//!              (tgt and tbl are what the repaired algorithm asks chrono; the current one ignores them)
+//!              (tgt and tbl are what the current code asks chrono; mk / offTrunc are what the code before
+//!              80d997f asked and only feed the tag `unit-start-in-other-offset`)
 //!   result = UTC seconds of the returned instant (its nanoseconds are asserted zero) | P.<class>
 use crate::proto::*;
 use crate::rng::Rng;
@@ -243,30 +247,42 @@ fn mk_query(now: &DateTime<Local>, unit: &str, n: i64, modulate: bool) -> Option
     }
 }
 
-fn offset_changes_between(a: i64, b: i64, off_a: i32) -> bool {
-    // sampled: both ends, and up to 512 equidistant instants in between (at least hourly for
-    // spans up to three weeks); transitions the sampling can miss are shorter than span/512
-    if b <= a {
-        return false;
-    }
-    let span = b - a;
-    let step = std::cmp::max(1, span / 512);
+/// How far ahead of `current` the zone is searched for its next offset change: the length of `n`
+/// units (months of 31, years of 366 days) plus three days, at most 400 years.
+fn horizon(unit: &str, n: i64) -> i64 {
+    let n1 = std::cmp::max(n, 1) as i128;
+    let h = n1 * unit_secs(unit) as i128 + 3 * 86_400;
+    std::cmp::min(h, 400 * 366 * 86_400) as i64
+}
+
+/// The first instant after `a` (at most `h` seconds later) at which the zone's UTC offset differs
+/// from the one just before it — found by sampling every `max(6 h, h/4000)` and bisecting; offset
+/// excursions shorter than one sampling step can be missed.
+fn first_transition_after(a: i64, h: i64) -> Option<i64> {
+    let off = |t: i64| Local.timestamp_opt(t, 0).single().map(|d| d.offset().fix().local_minus_utc());
+    let step = std::cmp::max(21_600, h / 4_000);
+    let end = a.checked_add(h)?;
     let mut t = a;
-    while t <= b {
-        match Local.timestamp_opt(t, 0).single() {
-            Some(d) => {
-                if d.offset().fix().local_minus_utc() != off_a {
-                    return true;
+    let mut o = off(t)?;
+    while t < end {
+        let t2 = std::cmp::min(t + step, end);
+        let o2 = off(t2)?;
+        if o2 != o {
+            let (mut lo, mut hi) = (t, t2);
+            while hi - lo > 1 {
+                let mid = lo + (hi - lo) / 2;
+                if off(mid)? == o {
+                    lo = mid;
+                } else {
+                    hi = mid;
                 }
             }
-            None => return true,
+            return Some(hi);
         }
-        t += step;
+        t = t2;
+        o = o2;
     }
-    match Local.timestamp_opt(b, 0).single() {
-        Some(d) => d.offset().fix().local_minus_utc() != off_a,
-        None => true,
-    }
+    None
 }
 
 /// What the repaired `get_next_time` asks chrono (computed independently in wide arithmetic):
@@ -389,7 +405,7 @@ fn block(now: &DateTime<Local>, unit: &str, n: i64, modulate: bool) -> (String, 
     };
     let cur = *now;
     let res = guarded(move || TimeTrigger::verif_get_next_time(cur, interval, modulate));
-    let (result, off_res, chg, rciv) = match res {
+    let (result, off_res, rciv) = match res {
         Ok(t) => {
             let result = if t.timestamp_subsec_nanos() == 0 {
                 t.timestamp().to_string()
@@ -397,16 +413,17 @@ fn block(now: &DateTime<Local>, unit: &str, n: i64, modulate: bool) -> (String, 
                 format!("{}+{}ns", t.timestamp(), t.timestamp_subsec_nanos())
             };
             let off_res = t.offset().fix().local_minus_utc();
-            let chg = offset_changes_between(now.timestamp(), t.timestamp(), off_now);
             (
                 result,
                 off_res.to_string(),
-                enc_bool(chg).to_owned(),
                 format!("{},{},{},{},{},{}", t.year(), t.month(), t.day(), t.hour(), t.minute(), t.second()),
             )
         }
-        Err(msg) => (format!("P.{}", panic_class(&msg)), "-".to_owned(), "-".to_owned(), "-".to_owned()),
+        Err(msg) => (format!("P.{}", panic_class(&msg)), "-".to_owned(), "-".to_owned()),
     };
+    // the zone's next offset change after `current` — independent of what the code answered
+    let h = horizon(unit, n);
+    let chg = format!("{},{}", h, enc_opt(first_transition_after(now.timestamp(), h), |t| t.to_string()));
     let (tgt, tbl) = guarded(move || target_facts(&cur, unit, n, modulate)).unwrap_or(("?".to_owned(), "?".to_owned()));
     (
         format!("{};{};{};{};{};{};{};{};{};{}", civ, lnow, off_now, mk, off_trunc, off_res, chg, rciv, tgt, tbl),
@@ -466,6 +483,35 @@ fn parse_instant(s: &str) -> Option<(i64, u32)> {
     Some((secs, nanos))
 }
 
+/// one record arrival: `secs:nanos[/secs2:nanos2][!]` — the clock value `trigger()` reads, optionally
+/// a different value for the second reading inside `TimeTrigger::new` when it reschedules, and `!`
+/// when the roller is made to fail (fault injected at the roller's first filesystem step)
+#[derive(Clone, Copy)]
+struct Arrival {
+    first: (i64, u32),
+    second: Option<(i64, u32)>,
+    fail_roll: bool,
+}
+
+fn parse_arrival(s: &str) -> Option<Arrival> {
+    let (s, fail_roll) = match s.strip_suffix('!') {
+        Some(r) => (r, true),
+        None => (s, false),
+    };
+    let (a, b) = match s.split_once('/') {
+        Some((a, b)) => (a, Some(b)),
+        None => (s, None),
+    };
+    Some(Arrival {
+        first: parse_instant(a)?,
+        second: match b {
+            Some(b) => Some(parse_instant(b)?),
+            None => None,
+        },
+        fail_roll,
+    })
+}
+
 static COUNTER: std::sync::atomic::AtomicU64 = std::sync::atomic::AtomicU64::new(0);
 
 fn run_case(f: &[&str]) -> String {
@@ -498,7 +544,7 @@ fn run_case(f: &[&str]) -> String {
         Ok(v) => v,
         Err(_) => return "bad-case".to_owned(),
     };
-    let arrivals: Option<Vec<(i64, u32)>> = dec_list(',', f[8]).iter().map(|s| parse_instant(s)).collect();
+    let arrivals: Option<Vec<Arrival>> = dec_list(',', f[8]).iter().map(|s| parse_arrival(s)).collect();
     let arrivals = match arrivals {
         Some(a) => a,
         None => return "bad-case".to_owned(),
@@ -516,23 +562,30 @@ fn run_case(f: &[&str]) -> String {
         return format!("{} {}", facts, result);
     }
     let mut out = vec![facts, result];
-    let mut instants = Vec::new();
-    for (s, ns) in arrivals.iter() {
-        let t = match Local.timestamp_opt(*s, *ns).single() {
-            Some(t) => t,
-            None => return "bad-case".to_owned(),
-        };
-        let (fa, re) = block(&t, unit, n, modulate);
-        out.push(fa);
-        out.push(re);
-        instants.push((*s, *ns));
+    for arr in arrivals.iter() {
+        // facts at the first reading, then (if given) at the second reading
+        for (s, ns) in std::iter::once(arr.first).chain(arr.second) {
+            let t = match Local.timestamp_opt(s, ns).single() {
+                Some(t) => t,
+                None => return "bad-case".to_owned(),
+            };
+            let (fa, re) = block(&t, unit, n, modulate);
+            out.push(fa);
+            out.push(re);
+        }
     }
     out.push("T".to_owned());
 
-    // the stateful part: a real appender under the driven clock
-    let clock = Arc::new(Mutex::new((secs, nanos)));
+    // the stateful part: a real appender under the driven clock. The clock hands out the queued
+    // readings in order and repeats the last one (trigger() reads it, then TimeTrigger::new again).
+    let clock: Arc<Mutex<(Vec<(i64, u32)>, usize)>> = Arc::new(Mutex::new((vec![(secs, nanos)], 0)));
     let c2 = clock.clone();
-    log4rs::verif_hooks::set_now(Some(Arc::new(move || Some(*c2.lock().unwrap()))));
+    log4rs::verif_hooks::set_now(Some(Arc::new(move || {
+        let mut g = c2.lock().unwrap();
+        let i = std::cmp::min(g.1, g.0.len() - 1);
+        g.1 += 1;
+        Some(g.0[i])
+    })));
     let scratch = std::env::var("VERIF_SCRATCH").unwrap_or_else(|_| "/tmp".to_owned());
     let dir = std::path::PathBuf::from(scratch).join(format!(
         "c16_{}_{}",
@@ -560,8 +613,13 @@ fn run_case(f: &[&str]) -> String {
                 .encoder(Box::new(PatternEncoder::new("{m}{n}")))
                 .build(dir.join("a.log"), Box::new(policy))
                 .unwrap();
-            for (i, inst) in instants.iter().enumerate() {
-                *clock.lock().unwrap() = *inst;
+            for (i, arr) in arrivals.iter().enumerate() {
+                *clock.lock().unwrap() = (std::iter::once(arr.first).chain(arr.second).collect(), 0);
+                if arr.fail_roll {
+                    log4rs::verif_hooks::set_rotate_point(Some(Arc::new(|_| {
+                        Err(std::io::Error::new(std::io::ErrorKind::Other, "injected roller failure"))
+                    })));
+                }
                 let before = log.lock().unwrap().len();
                 let r = std::panic::catch_unwind(std::panic::AssertUnwindSafe(|| {
                     appender.append(
@@ -571,10 +629,14 @@ fn run_case(f: &[&str]) -> String {
                             .build(),
                     )
                 }));
+                log4rs::verif_hooks::set_rotate_point(None);
                 let entries: Vec<String> = log.lock().unwrap()[before..].to_vec();
                 let e = match (r, entries.as_slice()) {
                     (Ok(Ok(())), [one]) => one.clone(),
                     (Err(_), [one]) if one.starts_with("P.") => one.clone(),
+                    // the trigger answered, then `append` returned an error (the roller failed):
+                    // the record is not written
+                    (Ok(Err(_)), [one]) => format!("{}:E", one),
                     (Ok(Err(_)), _) => "E".to_owned(),
                     _ => "?".to_owned(),
                 };
@@ -689,6 +751,21 @@ fn push_case(
     arrivals: &[(i64, u32)],
 ) {
     let arr: Vec<String> = arrivals.iter().map(|(s, ns)| format!("{}:{}", s, ns)).collect();
+    push_case_raw(emit, kind, tz, inst, unit, n, modulate, maxdelay, &arr);
+}
+
+/// arrivals already rendered (`secs:nanos[/secs2:nanos2][!]`)
+fn push_case_raw(
+    emit: &mut dyn FnMut(String),
+    kind: &str,
+    tz: &str,
+    inst: (i64, u32),
+    unit: &str,
+    n: i64,
+    modulate: bool,
+    maxdelay: u64,
+    arr: &[String],
+) {
     emit(format!(
         "{}\t{}\t{}\t{}\t{}\t{}\t{}\t{}\t{}",
         kind,
@@ -699,7 +776,7 @@ fn push_case(
         n,
         enc_bool(modulate),
         maxdelay,
-        enc_list(",", &arr)
+        enc_list(",", arr)
     ));
 }
 
@@ -778,8 +855,14 @@ fn grid_instant(rng: &mut Rng, z: &ZoneInfo) -> (i64, u32) {
 }
 
 fn random_instant(rng: &mut Rng) -> (i64, u32) {
-    // 1970 … 2105
-    (rng.below(4_260_000_000) as i64, if rng.chance(1, 2) { 0 } else { rng.below(1_000_000_000) as u32 })
+    // mostly 1890 … 2105; one in sixteen far in the future (up to the year 50000, i.e. also beyond
+    // the "never" instant 9999-12-31)
+    let secs = if rng.chance(1, 16) {
+        4_260_000_000 + rng.below(1_500_000_000_000) as i64
+    } else {
+        rng.below(6_780_000_000) as i64 - 2_520_000_000
+    };
+    (secs, if rng.chance(1, 2) { 0 } else { rng.below(1_000_000_000) as u32 })
 }
 
 fn pick_n(rng: &mut Rng) -> i64 {
@@ -799,6 +882,11 @@ const MIDNIGHT_ZONES: &[(&str, i64, i64)] = &[
     ("BST-4BDT,M3.2.0/23:30,M10.2.1/0:30", 1_767_225_600, 1_924_992_000),
     ("<-03>3<-02>,M11.1.0/0,M2.3.0/0", 1_767_225_600, 1_924_992_000),
     ("America/Sao_Paulo", 1_483_228_800, 1_577_836_800),
+    // a whole local day skipped (2011-12-30 does not exist): 96 steps of the gap loop
+    ("Pacific/Apia", 1_322_000_000, 1_326_000_000),
+    // a two-hour shift, and a three-hour one
+    ("Antarctica/Troll", 1_767_225_600, 1_798_761_600),
+    ("TST0TDT-3,M3.2.0/0,M10.2.0/0", 1_767_225_600, 1_830_297_600),
 ];
 const MIDNIGHT_ZONES_THOROUGH: &[(&str, i64, i64)] = &[
     ("<-04>4<-03>,M9.1.6/24,M4.1.6/24", 1_767_225_600, 2_082_758_400),
@@ -888,6 +976,9 @@ pub fn gen(rng: &mut Rng, n: usize, thorough: bool, emit: &mut dyn FnMut(String)
         13_000_000,
         8_200_000_000_000,
         0,
+        -1,
+        -5,
+        i64::MIN,
     ];
     for z in infos.iter().take(if thorough { 9 } else { 2 }) {
         for nn in absurd {
@@ -907,22 +998,23 @@ pub fn gen(rng: &mut Rng, n: usize, thorough: bool, emit: &mut dyn FnMut(String)
         let unit = *rng.pick(UNITS);
         let nn = pick_n(rng);
         let modulate = rng.chance(1, 2);
-        if inst.0 < 0 {
-            continue;
-        }
         push_case(emit, "next", &z.tz, inst, unit, nn, modulate, 0, &[]);
     }
     // 4. trigger histories through the real appender
     for i in 0..n_trig {
         let z = &infos[i % infos.len()];
         let inst = if rng.chance(1, 4) { random_instant(rng) } else { grid_instant(rng, z) };
-        if inst.0 < 0 {
-            continue;
-        }
         let unit = *rng.pick(UNITS);
         let nn = if rng.chance(1, 2) { 1 } else { pick_n(rng) };
         let modulate = rng.chance(1, 2);
-        let maxdelay = if rng.chance(1, 2) { 0 } else { *rng.pick(&[1u64, 2, 5, 60, 3600, 100_000]) };
+        let maxdelay = if rng.chance(1, 2) {
+            0
+        } else if rng.chance(1, 8) {
+            // bounds beyond what `new` can add: above i64::MAX, above chrono's duration range
+            *rng.pick(&[u64::MAX, (i64::MAX as u64) + 1, i64::MAX as u64, (i64::MAX / 1000) as u64 + 1, (i64::MAX / 1000) as u64, 8_300_000_000_000])
+        } else {
+            *rng.pick(&[1u64, 2, 5, 60, 3600, 100_000])
+        };
         let k = rng.range(2, 10) as usize;
         let span = unit_secs(unit) * nn;
         let mut t = inst;
@@ -945,11 +1037,35 @@ pub fn gen(rng: &mut Rng, n: usize, thorough: bool, emit: &mut dyn FnMut(String)
             }
             arrivals.push(t);
         }
-        if thorough && rng.chance(1, 20) {
-            // a clock that steps backwards once (outside the theorem's hypothesis, inside the model)
+        if rng.chance(1, if thorough { 20 } else { 10 }) {
+            // a clock that steps backwards once (any order of arrivals is inside the theorems)
             let j = rng.below(k as u64) as usize;
             arrivals[j].0 -= span;
         }
-        push_case(emit, "trig", &z.tz, inst, unit, nn, modulate, maxdelay, &arrivals);
+        let mut arr: Vec<String> = arrivals.iter().map(|(s, ns)| format!("{}:{}", s, ns)).collect();
+        if rng.chance(1, 6) {
+            // the clock moves between the two readings inside one `trigger()` call
+            let j = rng.below(k as u64) as usize;
+            let d = match rng.below(4) {
+                0 => 1,
+                1 => span,
+                2 => -1,
+                _ => -span,
+            };
+            arr[j] = format!("{}/{}:{}", arr[j], arrivals[j].0 + d, arrivals[j].1);
+        }
+        if rng.chance(1, 6) {
+            // the roller fails on this record, should the trigger fire
+            let j = rng.below(k as u64) as usize;
+            arr[j].push('!');
+        }
+        push_case_raw(emit, "trig", &z.tz, inst, unit, nn, modulate, maxdelay, &arr);
+    }
+    // 5. a schedule at the very end of chrono's time line: the delay cannot be added
+    for z in infos.iter().take(2) {
+        let now = 1_790_000_000i64;
+        for nn in [8_210_266_876_799 - now - 40, 8_210_266_876_799 - now] {
+            push_case(emit, "trig", &z.tz, (now, 0), "second", nn, false, 100_000, &[(now + 5, 0)]);
+        }
     }
 }
